@@ -77,16 +77,16 @@ example : items none (.bin .sub (.bin .sub (.var "x") (.num 3)) (.num 1) : Exp I
 
 /-- **`parse (display e) = e`**: for every compiled expression of the fragment `Frag` — numbers as
 opaque tokens under `NumOk` (an integer literal within `i64` or a float literal `ddd.ddd`, read back to
-the same value), plain identifiers that are not keywords, `+ - * /` (operands not bare logic nodes),
-unary minus, `not`, and the two-operand logic nodes `into_exp` builds — the TEXT that the ported
+the same value), plain identifiers that are not keywords, `+ - * /` over ANY operands of the fragment (logic
+nodes included: they are parenthesised since 5d62460), unary minus, `not`, and the two-operand logic nodes
+`into_exp` builds — the TEXT that the ported
 `impl Display for Exp` produces is cut by the lexer model and parsed by the parser model of C09 (PEG rules
 of `exp`, pest's Pratt loop over the regenerated table) into the tree `toP e`, and `PreExp::into_exp`
 maps that tree back to `e` itself.  (Instance of C09's `printer_roundtrip`: the tokens of `Display` are a
 rendering with a superset of the needed parentheses.)
 Outside the fragment, by the limits of the lexer model: `abs{}`/`min{}`/`max{}` blocks (braces), names with
 an inner underscore or `$`-prefixed (`x_1`, `$abs_0`), negative number literals (they read back as unary
-minus), n-ary `and`/`or` of other arities; and a logic node directly under `+ - * /`, which `Display` does
-not parenthesise (`parse_display_logic_operand_counterexample`). -/
+minus), n-ary `and`/`or` of other arities. -/
 theorem parse_display_exp {α : Type} [Arith α] (tok : α → String) (numOf : String → α) (e : Exp α)
     (h : Frag tok numOf e) :
     Syntax.parseText (displayExp tok e).toList = .ok (toP tok e) ∧ intoExp numOf (toP tok e) = some e := by
@@ -124,7 +124,7 @@ example : Frag (fun _ : Ext K => "3") (fun _ => (Ext.fin 0 : Ext K))
          simp [Arith.ofInt, this]⟩
   have hx : Rooc.Syntax.Proofs.plainWord "x".toList = true ∧ Syntax.isKeyword "x" = false := ⟨by decide, by decide⟩
   have hy : Rooc.Syntax.Proofs.plainWord "y".toList = true ∧ Syntax.isKeyword "y" = false := ⟨by decide, by decide⟩
-  exact ⟨rfl, rfl, rfl, hx, rfl, rfl, rfl, ⟨rfl, rfl, rfl, hn, hy⟩, hn⟩
+  exact ⟨rfl, hx, rfl, ⟨rfl, hn, hy⟩, hn⟩
 
 /-- non-vacuity of `parse_display_constraint`: `cap: x <= 3` -/
 example : FragC (fun _ : Ext K => "3") (fun _ => (Ext.fin 0 : Ext K))
@@ -140,19 +140,18 @@ example : FragC (fun _ : Ext K => "3") (fun _ => (Ext.fin 0 : Ext K))
   have h4 : Syntax.isKeyword "x" = false := by decide
   exact ⟨Or.inr ⟨h1, h2⟩, ⟨h3, h4⟩, Or.inr hn⟩
 
-/-- A logic node directly under an arithmetic operator is rendered without parentheses:
-`(b and d) + x` is printed `b and d + x`, whose tokens read back as `b and (d + x)`. -/
-theorem parse_display_logic_operand_counterexample :
-    displayExp (fun _ : Int => "?") (.bin .add (.and [.var "b", .var "d"]) (.var "x")) = "b and d + x"
-    ∧ Syntax.parseToks [.word "b", .word "and", .word "d", .plus, .word "x"] =
-        .ok (.bin .and (.var "b") (.bin .add (.var "d") (.var "x"))) := by
-  refine ⟨by simp [displayExp, showE, joinWith, logicOperand, isLeaf, binOpStr], ?_⟩
-  have hb : Rooc.Syntax.Proofs.Atom (.var "b") (.word "b") := .var "b" (by decide)
-  have hd : Rooc.Syntax.Proofs.Atom (.var "d") (.word "d") := .var "d" (by decide)
-  have hx : Rooc.Syntax.Proofs.Atom (.var "x") (.word "x") := .var "x" (by decide)
-  exact Rooc.Syntax.Proofs.parse_tk (Rooc.Syntax.Proofs.Tk.bin (.atom hb)
-    (Rooc.Syntax.Proofs.Tk.bin (.atom hd) (.atom hx) (Or.inl rfl) (Or.inl rfl) (by simp [Rooc.Syntax.Proofs.binToks]))
-    (Or.inl rfl) (Or.inr (by decide)) (by simp [Rooc.Syntax.Proofs.binToks]))
+/-- non-vacuity with a logic operand under arithmetic: `(b and not d) + x - (b implies d)` is in the fragment -/
+example : Frag (fun _ : Ext K => "3") (fun _ => (Ext.fin 0 : Ext K))
+    (.bin .sub (.bin .add (.and [.var "b", .not (.var "d")]) (.var "x")) (.implies (.var "b") (.var "d"))) := by
+  have hb : Rooc.Syntax.Proofs.plainWord "b".toList = true ∧ Syntax.isKeyword "b" = false := ⟨by decide, by decide⟩
+  have hd : Rooc.Syntax.Proofs.plainWord "d".toList = true ∧ Syntax.isKeyword "d" = false := ⟨by decide, by decide⟩
+  have hx : Rooc.Syntax.Proofs.plainWord "x".toList = true ∧ Syntax.isKeyword "x" = false := ⟨by decide, by decide⟩
+  exact ⟨rfl, ⟨rfl, ⟨hb, hd⟩, hx⟩, ⟨hb, hd⟩⟩
+
+/-- regression (repaired in 5d62460): a logic node under an arithmetic operator keeps its parentheses —
+`(b and d) + x` used to be printed `b and d + x`, which reads as `b and (d + x)`. -/
+example : displayExp (fun _ : Int => "?") (.bin .add (.and [.var "b", .var "d"]) (.var "x")) = "(b and d) + x" := by
+  simp [displayExp, showE, logicWrap, joinWith, logicOperand, isLeaf, binOpStr]
 
 /-! ### the sign of a rendered term -/
 
